@@ -1,5 +1,5 @@
 (* C03 for the response parser: HttpResp.rfeed (= HttpResponseParser.feed_data, lax mode) does not
-   depend on how the byte stream is cut into reads - up to the two places where the lax CR skipping
+   depend on how the byte stream is cut into reads - up to the one place where the lax CR skipping
    looks at the read boundary.  Well-formedness invariant, fuel sufficiency, the two-read splitting
    theorem and its lifting to arbitrary segmentations.  Mirrors Proofs/HttpSeg.v. *)
 From Coq Require Import ZifyBool ZifyN.
@@ -180,14 +180,14 @@ Definition rwf (s : rst) : Prop :=
 Definition rtail_ok (lim : limits) (s : rst) : bool :=
   match rpayload s with Some p => negb (rtoo_long lim p) | None => true end.
 
-(* the read did not end right after the last-chunk line, nor right after an optional CR following
-   chunk data (the two places where the lax parser's CR skipping depends on the read boundary) *)
+(* the read did not end right after an optional CR following chunk data (the one place where the lax
+   parser's CR skipping depends on the read boundary) *)
 Definition rclean_st (s : rst) : bool :=
   match rpayload s with Some p => rclean p | None => true end.
 
 (* ... or it did, and the bytes y that follow are read the same way as without the boundary
    (Proofs/HttpRespChunk.v, resume_c): after the optional CR that followed chunk data y does not start
-   with CR; after the last-chunk line y does not start with CR, or starts with a line of CRs only *)
+   with CR *)
 Definition rresume_st (s : rst) (y : bytes) : bool :=
   match rpayload s with
   | Some p => match y with [] => true | _ => rresume_ok p y end
@@ -544,7 +544,7 @@ Lemma rwf_spelled s : rwf s ->
     | RLength rem => 0 < rem /\ rctail p = [] /\ rtlines p = []
     | RUntilEof => rctail p = [] /\ rtlines p = []
     | RChunked (RData rem) => 0 < rem /\ rctail p = []
-    | RChunked (RDataEnd _) | RChunked RTrail0 => rctail p = []
+    | RChunked (RDataEnd _) => rctail p = []
     | RChunked _ => has_byte 10 (rctail p) = false
     end.
 Proof.
